@@ -98,61 +98,67 @@ Definition notes_ok (a : arg) : bool :=
 
 Definition row_too_short (h : list (Z * Z)) (row : list cell) : bool := Z.of_nat (length row) <=? max_col h.
 
-Definition create_in (cfg : pcfg) (rowno : Z) (row : list cell) : result raw_in :=
-  let h := pc_in cfg in
-  if row_too_short h row then Err EValue else
-  do ts <- ts_arg cfg (get_arg h row 0);
-  do _ <- member_arg (get_arg h row 1) (pc_assets cfg);
-  do ex <- member_arg (get_arg h row 2) (pc_exchanges cfg);
-  do ho <- member_arg (get_arg h row 3) (pc_holders cfg);
-  do ty <- ttype_arg (get_arg h row 4);
-  do spot <- mandatory_num (get_arg h row 5);
-  do cin <- mandatory_num (get_arg h row 6);
-  do cfee <- optional_num (get_arg h row 7);
-  do f1 <- optional_num (get_arg h row 8);
-  do f2 <- optional_num (get_arg h row 9);
-  do f3 <- optional_num (get_arg h row 10);
-  if negb (notes_ok (get_arg h row 12)) then Err EType else
+Definition create_in_args (cfg : pcfg) (rowno : Z) (ga : Z -> arg) : result raw_in :=
+  do ts <- ts_arg cfg (ga 0);
+  do _ <- member_arg (ga 1) (pc_assets cfg);
+  do ex <- member_arg (ga 2) (pc_exchanges cfg);
+  do ho <- member_arg (ga 3) (pc_holders cfg);
+  do ty <- ttype_arg (ga 4);
+  do spot <- mandatory_num (ga 5);
+  do cin <- mandatory_num (ga 6);
+  do cfee <- optional_num (ga 7);
+  do f1 <- optional_num (ga 8);
+  do f2 <- optional_num (ga 9);
+  do f3 <- optional_num (ga 10);
+  if negb (notes_ok (ga 12)) then Err EType else
   Ok {| ri_row := rowno; ri_ts := ts; ri_exch := ex; ri_holder := ho; ri_type := ty; ri_spot := spot; ri_crypto_in := cin;
         ri_crypto_fee := cfee; ri_fiat_in_no_fee := f1; ri_fiat_in_with_fee := f2; ri_fiat_fee := f3 |}.
 
-Definition create_out (cfg : pcfg) (rowno : Z) (row : list cell) : result raw_out :=
-  let h := pc_out cfg in
-  if row_too_short h row then Err EValue else
-  do ts <- ts_arg cfg (get_arg h row 0);
-  do _ <- member_arg (get_arg h row 1) (pc_assets cfg);
-  do ex <- member_arg (get_arg h row 2) (pc_exchanges cfg);
-  do ho <- member_arg (get_arg h row 3) (pc_holders cfg);
-  do ty <- ttype_arg (get_arg h row 4);
-  do spot <- mandatory_num (get_arg h row 5);
-  do nofee <- mandatory_num (get_arg h row 6);
-  do fee <- mandatory_num (get_arg h row 7);
-  do w <- optional_num (get_arg h row 8);
-  do f1 <- optional_num (get_arg h row 9);
-  do f2 <- optional_num (get_arg h row 10);
-  if negb (notes_ok (get_arg h row 12)) then Err EType else
+Definition create_in (cfg : pcfg) (rowno : Z) (row : list cell) : result raw_in :=
+  let h := pc_in cfg in
+  if row_too_short h row then Err EValue else create_in_args cfg rowno (get_arg h row).
+
+Definition create_out_args (cfg : pcfg) (rowno : Z) (ga : Z -> arg) : result raw_out :=
+  do ts <- ts_arg cfg (ga 0);
+  do _ <- member_arg (ga 1) (pc_assets cfg);
+  do ex <- member_arg (ga 2) (pc_exchanges cfg);
+  do ho <- member_arg (ga 3) (pc_holders cfg);
+  do ty <- ttype_arg (ga 4);
+  do spot <- mandatory_num (ga 5);
+  do nofee <- mandatory_num (ga 6);
+  do fee <- mandatory_num (ga 7);
+  do w <- optional_num (ga 8);
+  do f1 <- optional_num (ga 9);
+  do f2 <- optional_num (ga 10);
+  if negb (notes_ok (ga 12)) then Err EType else
   Ok {| ro_row := rowno; ro_ts := ts; ro_exch := ex; ro_holder := ho; ro_type := ty; ro_spot := spot;
         ro_crypto_out_no_fee := nofee; ro_crypto_fee := fee; ro_crypto_out_with_fee := w; ro_fiat_out_no_fee := f1; ro_fiat_fee := f2 |}.
 
-Definition create_intra (cfg : pcfg) (rowno : Z) (row : list cell) : result raw_intra :=
-  let h := pc_intra cfg in
-  if row_too_short h row then Err EValue else
-  do ts <- ts_arg cfg (get_arg h row 0);
-  do _ <- member_arg (get_arg h row 1) (pc_assets cfg);
-  do fe <- member_arg (get_arg h row 2) (pc_exchanges cfg);
-  do fh <- member_arg (get_arg h row 3) (pc_holders cfg);
-  do te <- member_arg (get_arg h row 4) (pc_exchanges cfg);
-  do th <- member_arg (get_arg h row 5) (pc_holders cfg);
-  match get_arg h row 6 with
+Definition create_out (cfg : pcfg) (rowno : Z) (row : list cell) : result raw_out :=
+  let h := pc_out cfg in
+  if row_too_short h row then Err EValue else create_out_args cfg rowno (get_arg h row).
+
+Definition create_intra_args (cfg : pcfg) (rowno : Z) (ga : Z -> arg) : result raw_intra :=
+  do ts <- ts_arg cfg (ga 0);
+  do _ <- member_arg (ga 1) (pc_assets cfg);
+  do fe <- member_arg (ga 2) (pc_exchanges cfg);
+  do fh <- member_arg (ga 3) (pc_holders cfg);
+  do te <- member_arg (ga 4) (pc_exchanges cfg);
+  do th <- member_arg (ga 5) (pc_holders cfg);
+  match ga 6 with
   | ANone => Err EType            (* spot_price has no default: a header without it cannot construct *)
   | a6 =>
     do spot <- optional_num a6;
-    do sent <- mandatory_num (get_arg h row 7);
-    do recv <- mandatory_num (get_arg h row 8);
-    if negb (notes_ok (get_arg h row 10)) then Err EType else
+    do sent <- mandatory_num (ga 7);
+    do recv <- mandatory_num (ga 8);
+    if negb (notes_ok (ga 10)) then Err EType else
     Ok {| rx_row := rowno; rx_ts := ts; rx_from_exch := fe; rx_from_holder := fh; rx_to_exch := te; rx_to_holder := th;
           rx_spot := spot; rx_crypto_sent := sent; rx_crypto_received := recv |}
   end.
+
+Definition create_intra (cfg : pcfg) (rowno : Z) (row : list cell) : result raw_intra :=
+  let h := pc_intra cfg in
+  if row_too_short h row then Err EValue else create_intra_args cfg rowno (get_arg h row).
 
 (** the asset cell of a data row must be the sheet's asset (entry set check) *)
 Definition asset_is (cfg : pcfg) (h : list (Z * Z)) (row : list cell) (asset : str) : bool :=
